@@ -14,6 +14,12 @@ def handle (op : String) (args : List String) : Option String :=
     let pid ← kvBytes args "pid"
     let ctx ← kvBytes args "ctx"
     some ("ok " ++ hexOrDash (protocolPreimage sid pid ctx))
+  | "protoPrefix" => do
+    -- sid ‖ uvarint(n): the preimage of a protocol ID of n bytes is this ‖ pid ‖ ctx
+    -- (Solicit.protocolPreimage_eq_prefix)
+    let sid ← kvBytes args "sid"
+    let n ← kvNat args "n"
+    some ("ok " ++ hexOrDash (protocolPrefix sid n))
   | "find" => do
     let l ← kvBytesList args "l"
     let r ← kvBytesList args "r"
